@@ -157,10 +157,16 @@ func GenBufs(r *common.Rand, sh Shape, g *common.Gen, allowNil bool) string {
 }
 
 func optNat(r *common.Rand, tab []uint64, max uint64) string {
-	switch x := r.Intn(4); {
-	case x == 0:
+	switch x := r.Intn(8); {
+	case x <= 1:
 		return "-"
-	case x == 1:
+	case x == 2:
+		// the two ends of the range: present and exactly 0, present and maximal
+		if r.Chance(2, 3) {
+			return "0"
+		}
+		return strconv.FormatUint(max, 10)
+	case x <= 4:
 		v := common.Pick(r, tab)
 		if v > max {
 			v = max
